@@ -44,16 +44,22 @@ def exact_power(chk: Check, n, family, with_gen):
     ag = [parse_aggr(NAMES, o) for o in Driver("DriverSpec.lean").ask(
         [f"aggrof 4 {' '.join(NAMES)} {table_wire(c['t'])}" for c in cases])]
 
+    for ci_, c in enumerate(cases):
+        # which roles carry a column: besides (numerator [, covariate]) and all four, the MIXED patterns — a ratio metric
+        # with a plain covariate, a plain metric with a ratio covariate
+        c["dcov"] = c["cov"] and (c["den"] != (ci_ % 5 in (1, 3)))
+
     def cfgw(c):
-        return (f"c0 {'c1' if c['den'] else '-'} {'c2' if c['cov'] else '-'} {'c3' if c['cov'] and c['den'] else '-'} "
+        return (f"c0 {'c1' if c['den'] else '-'} {'c2' if c['cov'] else '-'} {'c3' if c['dcov'] else '-'} "
                 f"{c['alt']} 19/20 {int(c['ev'])} {int(c['ut'])} {rs(c['alpha'])} {rs(c['ratio'])} 4/5")
     args = Driver("DriverGen.lean").ask([f"powerargs {cfgw(c)} {aggr_wire(NAMES, *a)}" for c, a in zip(cases, ag)]) \
         if with_gen else None
     pending = []
     for ci, (c, a) in enumerate(zip(cases, ag)):
         with stubs.exact_mode(family):
-            if c["den"]:
-                m = tt.RatioOfMeans("c0", "c1", "c2" if c["cov"] else None, "c3" if c["cov"] else None,
+            if c["den"] or c["dcov"]:
+                m = tt.RatioOfMeans("c0", "c1" if c["den"] else None, "c2" if c["cov"] else None,
+                                    "c3" if c["dcov"] else None,
                                     alternative=c["alt"], equal_var=c["ev"], use_t=c["ut"])
             else:
                 m = tt.Mean("c0", "c2" if c["cov"] else None, alternative=c["alt"], equal_var=c["ev"], use_t=c["ut"])
@@ -76,7 +82,7 @@ def exact_power(chk: Check, n, family, with_gen):
                    data=[[str(v) for v in r] for r in c["t"]])
         nobs = c["nobs"] or [len(c["t"])]
         chk.case(("exact", c["alt"], c["ev"], c["ut"], c["cov"], c["den"], str(c["ratio"]), len(c["effs"]), len(nobs)))
-        chk.branch("metric:" + ("ratio" if c["den"] else "mean"))
+        chk.branch("metric:" + ("ratio" if c["den"] else "mean") + ("+ratio-covariate" if c["dcov"] else "+plain-covariate" if c["cov"] else ""))
         chk.branch(f"cell={c['alt']},{'pooled' if c['ev'] else 'welch'},{'t' if c['ut'] else 'z'}")
         chk.branch("effects:" + ("relative" if c["rel"] else "absolute"))
         if len(rows) != len(c["effs"]) * len(nobs):
@@ -85,6 +91,41 @@ def exact_power(chk: Check, n, family, with_gen):
         if args is None:
             continue
         mm, mv = [parse_num(x) for x in args[ci].split()]
+        # the variance behind the power analysis, computed independently from the raw rows: the sample variance of
+        # LY - theta (LX - mean LX), LY / LX the delta-method linearisations, theta = cov(LY, LX) / var(LX)  (exact rationals)
+        if c["cov"]:
+            rows_ = c["t"]
+            nrow = len(rows_)
+
+            def colv(j):
+                return [r_[j] for r_ in rows_]
+
+            def lin(num, den):
+                if den is None:
+                    return list(num)
+                mn, md = sum(num) / nrow, sum(den) / nrow
+                return [mn / md + (a_ - mn / md * b_) / md for a_, b_ in zip(num, den)]
+
+            def cov_(u, w):
+                mu, mw = sum(u) / nrow, sum(w) / nrow
+                return sum((a_ - mu) * (b_ - mw) for a_, b_ in zip(u, w)) / (nrow - 1)
+            try:
+                LY = lin(colv(0), colv(1) if c["den"] else None)
+                LX = lin(colv(2), colv(3) if c["dcov"] else None)
+                vx = cov_(LX, LX)
+                th = cov_(LY, LX) / vx if vx != 0 else F(0)
+                want_var = cov_([a_ - th * b_ for a_, b_ in zip(LY, LX)], [a_ - th * b_ for a_, b_ in zip(LY, LX)])
+                real_var = None
+                if hasattr(m, "_metric_var") and hasattr(m, "_covariate_coef"):
+                    with stubs.exact_mode(family):       # Fractions pass through the zero-division wrappers unchanged
+                        wz = mk_real(*a).with_zero_div()
+                        real_var = m._metric_var(wz, m._covariate_coef(wz))
+                if real_var is not None and not isinstance(real_var, float) and F(real_var) != want_var:
+                    chk.fail("the variance behind the reported power is not the variance of the covariate-adjusted "
+                             "(linearised) observations", dict(input=inp, observed=str(real_var), expected=str(want_var)))
+                    continue
+            except ZeroDivisionError:
+                pass
         approx = not c["cov"]
         lines, expect = [], []
         k = 0
